@@ -307,6 +307,12 @@ func newC17State(w *mc.W) *c17State {
 			e := &encode.Encoder{}
 			bs[m] = st.encB(e, pi, m)
 		}
+		for m := 0; m < 2; m++ {
+			// encoding the same calls twice gives byte-identical output
+			if again := st.encB(&encode.Encoder{}, pi, m); !bytes.Equal(again, bs[m]) {
+				w.Fail("not-deterministic:"+c17Progs[pi].name, fmt.Sprintf("two fresh Encoders fed program %q yield %x and %x", c17Progs[pi].name, bs[m], again), c17Case{B: pi, Meta: m, Kind: "encoder"})
+			}
+		}
 		st.freshEnc = append(st.freshEnc, bs)
 		var z render.Renderer
 		var ras rec.Raster
